@@ -913,15 +913,17 @@ pub struct MadeD {
 const D_INST: &str = "shared";
 const D_HOST: &str = "shared-host.local.";
 
-pub fn scenario_d(seed: u64, offsets: &[u64], jitters: &[u64], swap: bool, dual: bool) -> MadeD {
+pub fn scenario_d(seed: u64, offsets: &[u64], jitters: &[u64], swap: bool, dual: bool, same_machine: bool) -> MadeD {
     let mut w = World::new(seed);
     w.set_stepping(Stepping::Lazy);
     let n = offsets.len();
     let mut hosts = Vec::new();
     for k in 0..n {
-        let mut addrs: Vec<(String, u8)> = vec![(format!("10.0.0.{}", 5 + k), 24)];
+        // several daemons of one machine share its interface and so the source address of all they send
+        let ifk = if same_machine { 0 } else { k };
+        let mut addrs: Vec<(String, u8)> = vec![(format!("10.0.0.{}", 5 + ifk), 24)];
         if dual {
-            addrs.push((format!("fe80::{}", 5 + k), 64));
+            addrs.push((format!("fe80::{}", 5 + ifk), 64));
         }
         let refs: Vec<(&str, u8)> = addrs.iter().map(|(a, p)| (a.as_str(), *p)).collect();
         let j = jitters[k];
@@ -947,7 +949,7 @@ pub fn scenario_d(seed: u64, offsets: &[u64], jitters: &[u64], swap: bool, dual:
     let last = offsets.iter().max().copied().unwrap_or(0);
     let horizon = t0 + last + 10_000;
     w.run_until(horizon);
-    let desc = format!("{n} daemons, offsets {offsets:?} ms, jitters {jitters:?}, ports {ports:?}, dual-stack {dual}");
+    let desc = format!("{n} daemons{}, offsets {offsets:?} ms, jitters {jitters:?}, ports {ports:?}, dual-stack {dual}", if same_machine { " on one machine (same interface address)" } else { "" });
     MadeD { world: w, desc, ports, horizon }
 }
 
@@ -962,11 +964,13 @@ pub fn monitor_d(made: &MadeD, l: &mut Local) {
         let txs = scen::tx_msgs(trace, k);
         finals.push(txs.iter().filter_map(|tx| names_announced(tx, &ty, made.ports[k])).last());
     }
+    let same_machine = made.desc.contains("on one machine");
     let shape = {
         let mut o: Vec<u64> = made.desc.split("offsets [").nth(1).unwrap_or("").split(']').next().unwrap_or("").split(", ").filter_map(|x| x.parse().ok()).collect();
         o.sort();
         let gap = o.last().copied().unwrap_or(0) - o.first().copied().unwrap_or(0);
-        if gap == 0 { "simultaneous" } else if gap < 750 { "overlapping-probes" } else if gap < 1800 { "during-announcement" } else { "after-announcement" }
+        let s = if gap == 0 { "simultaneous" } else if gap < 750 { "overlapping-probes" } else if gap < 1800 { "during-announcement" } else { "after-announcement" };
+        if same_machine { format!("{s}/same-machine") } else { s.to_string() }
     };
     let wit = || {
         let mut per_host = Vec::new();
@@ -1006,7 +1010,7 @@ pub fn monitor_d(made: &MadeD, l: &mut Local) {
     }
 }
 
-pub fn d_case(i: u64, thorough: bool, seed: u64) -> (Vec<u64>, Vec<u64>, bool, bool) {
+pub fn d_case(i: u64, thorough: bool, seed: u64) -> (Vec<u64>, Vec<u64>, bool, bool, bool) {
     let mut rng = Rng::new(util::mix(seed, 0xD0 + i));
     // the dense grid: every millisecond around the probe steps, 25 ms elsewhere up to 3 s
     let mut grid: Vec<u64> = Vec::new();
@@ -1038,19 +1042,21 @@ pub fn d_case(i: u64, thorough: bool, seed: u64) -> (Vec<u64>, Vec<u64>, bool, b
         offsets.reverse();
     }
     let jitters: Vec<u64> = offsets.iter().map(|_| *rng.pick(&jit)).collect();
-    (offsets, jitters, rng.chance(1, 2), rng.chance(1, 4))
+    let swap = rng.chance(1, 2);
+    let dual = rng.chance(1, 4);
+    (offsets, jitters, swap, dual, rng.chance(1, 3))
 }
 
 pub fn run_d(i: u64, thorough: bool, seed: u64, l: &mut Local) {
-    let (offsets, jitters, swap, dual) = d_case(i, thorough, seed);
-    let made = scenario_d(util::mix(seed, i), &offsets, &jitters, swap, dual);
+    let (offsets, jitters, swap, dual, same_machine) = d_case(i, thorough, seed);
+    let made = scenario_d(util::mix(seed, i), &offsets, &jitters, swap, dual, same_machine);
     l.evaluations += 1;
     l.count("daemon_iterations", made.world.total_iterations);
     if made.world.trace.deaths().any(|d| matches!(d.ev, Ev::Death { panicked: true, .. })) {
         l.inconclusive.push(format!("daemon died in a C08 two-daemon scenario ({})", made.desc));
         return;
     }
-    l.distinct.insert(util::fnv_str(&format!("D|{offsets:?}|{jitters:?}|{swap}|{dual}")));
+    l.distinct.insert(util::fnv_str(&format!("D|{offsets:?}|{jitters:?}|{swap}|{dual}|{same_machine}")));
     monitor_d(&made, l);
 }
 
@@ -1063,7 +1069,7 @@ pub fn run(report: &Report, tier: &Tier) {
          or shutdown. part T: pairs of record sets (port, TXT bytes, one or two IPv4 addresses, an IPv6 address) for the instance or host name, each side \
          shown the other's probe after its first, second or third probe, authority sorted / reversed / in other letter case. part D: two or three \
          daemons on one loss-free link registering the same instance and host name with different ports and addresses at offsets from a grid (every \
-         ms within 8 ms of 0/250/500/750/1000, every 25 ms to 3 s, 4 s, 6 s) x jitters {0,1,100,125,249}; distinct by (names, conflict kind) / record-set pair / (offsets, jitters)",
+         ms within 8 ms of 0/250/500/750/1000, every 25 ms to 3 s, 4 s, 6 s) x jitters {0,1,100,125,249}, one run in three with all daemons on one machine (same interface and source address); distinct by (names, conflict kind) / record-set pair / (offsets, jitters)",
     );
     for r in ["N1", "N1-renamed", "N1-event", "N1-probed", "N4-answers", "N5", "N2", "N3", "N3b", "N6"] {
         report.floor(r, 30);
